@@ -103,9 +103,10 @@ impl GenCfg {
         let huge = rng.chance(1, if matches!(prop, "C02" | "C09" | "C14") { 30 } else { 60 });
         let mut steps_override: Option<usize> = None;
         if huge {
-            max_live = match rng.below(8) {
-                0..=3 => rng.range(80, 300),
-                4..=6 => rng.range(260, 450),
+            max_live = match rng.below(if matches!(prop, "C14" | "C16" | "C09") { 6 } else { 8 }) {
+                0..=2 => rng.range(80, 300),
+                3 | 4 => rng.range(260, 450),
+                6 | 7 => rng.range(80, 300),
                 // a few are giant: limits around 512 and 1024 levels / nodes
                 _ => rng.range(600, 1300),
             } as usize;
@@ -118,7 +119,7 @@ impl GenCfg {
             }
         }
         // shape bias: random attachment alone almost never gives a node 10 children or depth 10
-        let shape = match rng.below(10) {
+        let shape = match if max_live >= 600 && rng.coin() { 2 } else { rng.below(10) } {
             0 | 1 => 1u8,
             2 | 3 => 2,
             4 => 3,
